@@ -687,17 +687,73 @@ func (x *Ctx) appendsDecodedValue(call *ssa.Call) bool {
 
 // isFieldnameOrUnescaped: v is (a phi of) the fieldname parameter or the load of the fieldNameBuf field (the unescaped key).
 func (x *Ctx) isFieldnameOrUnescaped(fn *ssa.Function, v ssa.Value, seen map[ssa.Value]bool) bool {
+	if len(fn.Params) < 2 {
+		return false
+	}
+	return x.keyValue(v, fn.Params[1], seen, 0)
+}
+
+// keyValue: v is the key's bytes: the fieldname itself, the reader's unescape buffer, the result of
+// UnescapeStringContent, a phi of such, or what a private helper given the fieldname returns (each of its returns
+// again such a value; nil only together with an error).
+func (x *Ctx) keyValue(v, fieldname ssa.Value, seen map[ssa.Value]bool, depth int) bool {
 	if seen[v] {
 		return true
 	}
 	seen[v] = true
-	if len(fn.Params) >= 2 && v == ssa.Value(fn.Params[1]) {
+	if v == fieldname {
 		return true
+	}
+	viaCall := func(c *ssa.Call, idx int) bool {
+		callee := c.Call.StaticCallee()
+		if callee == nil {
+			return false
+		}
+		if x.canon(callee) == "UnescapeStringContent" && idx == 0 {
+			return true
+		}
+		if !x.isPrivateHelper(callee) || callee.Blocks == nil || depth >= 3 || len(callee.Params) != len(c.Call.Args) {
+			return false
+		}
+		var fp ssa.Value
+		for i, a := range c.Call.Args {
+			if a == fieldname {
+				fp = callee.Params[i]
+			}
+		}
+		if fp == nil {
+			return false
+		}
+		n := 0
+		for _, b := range callee.Blocks {
+			ret, ok := b.Instrs[len(b.Instrs)-1].(*ssa.Return)
+			if !ok || idx >= len(ret.Results) {
+				continue
+			}
+			n++
+			res := ret.Results[idx]
+			if isNilConst(res) {
+				withErr := false
+				for _, o := range ret.Results {
+					if isErrT(o.Type()) && !isNilConst(o) {
+						withErr = true
+					}
+				}
+				if !withErr {
+					return false
+				}
+				continue
+			}
+			if !x.keyValue(res, fp, map[ssa.Value]bool{}, depth+1) {
+				return false
+			}
+		}
+		return n > 0
 	}
 	switch t := v.(type) {
 	case *ssa.Phi:
 		for _, e := range t.Edges {
-			if !x.isFieldnameOrUnescaped(fn, e, seen) {
+			if !x.keyValue(e, fieldname, seen, depth) {
 				return false
 			}
 		}
@@ -708,6 +764,12 @@ func (x *Ctx) isFieldnameOrUnescaped(fn *ssa.Function, v ssa.Value, seen map[ssa
 				return true
 			}
 		}
+	case *ssa.Extract:
+		if c, ok := t.Tuple.(*ssa.Call); ok {
+			return viaCall(c, t.Index)
+		}
+	case *ssa.Call:
+		return viaCall(t, 0)
 	}
 	return false
 }
@@ -717,7 +779,36 @@ func (x *Ctx) unescapeKeyShape(fn *ssa.Function) string {
 	if len(fn.Params) < 2 {
 		return "unexpected signature"
 	}
-	fieldname := fn.Params[1]
+	// the step may sit in a private helper that is handed the fieldname
+	type cand struct {
+		fn        *ssa.Function
+		fieldname ssa.Value
+	}
+	cands := []cand{{fn, fn.Params[1]}}
+	for i := 0; i < len(cands) && i < 6; i++ {
+		for _, b := range cands[i].fn.Blocks {
+			for _, ins := range b.Instrs {
+				if c, ok := ins.(*ssa.Call); ok {
+					if h := c.Call.StaticCallee(); h != nil && x.isPrivateHelper(h) && h.Blocks != nil && len(h.Params) == len(c.Call.Args) {
+						for ai, a := range c.Call.Args {
+							if a == cands[i].fieldname {
+								cands = append(cands, cand{h, h.Params[ai]})
+							}
+						}
+					}
+				}
+			}
+		}
+	}
+	for _, cd := range cands {
+		if msg, found := x.unescapeKeyShapeIn(cd.fn, cd.fieldname); found {
+			return msg
+		}
+	}
+	return "no unescape step for keys that contain a backslash"
+}
+
+func (x *Ctx) unescapeKeyShapeIn(fn *ssa.Function, fieldname ssa.Value) (string, bool) {
 	for _, b := range fn.Blocks {
 		for _, ins := range b.Instrs {
 			c, ok := ins.(*ssa.Call)
@@ -725,24 +816,24 @@ func (x *Ctx) unescapeKeyShape(fn *ssa.Function) string {
 				continue
 			}
 			callee := c.Call.StaticCallee()
-			if callee == nil || callee.Name() != "UnescapeStringContent" {
+			if callee == nil || x.canon(callee) != "UnescapeStringContent" {
 				continue
 			}
 			src, ok := c.Call.Args[0].(*ssa.Slice)
 			if !ok || src.X != ssa.Value(fieldname) || src.Low == nil || src.High != nil {
-				return "the key is not unescaped from fieldname[i:]"
+				return "the key is not unescaped from fieldname[i:]", true
 			}
 			idx := src.Low
 			ap, ok := c.Call.Args[1].(*ssa.Call)
 			if !ok {
-				return "the unescape destination is not append(buf[:0], fieldname[:i]...)"
+				return "the unescape destination is not append(buf[:0], fieldname[:i]...)", true
 			}
 			if bi, ok := ap.Call.Value.(*ssa.Builtin); !ok || bi.Name() != "append" {
-				return "the unescape destination is not append(buf[:0], fieldname[:i]...)"
+				return "the unescape destination is not append(buf[:0], fieldname[:i]...)", true
 			}
 			pre, ok := ap.Call.Args[1].(*ssa.Slice)
 			if !ok || pre.X != ssa.Value(fieldname) || pre.Low != nil || pre.High != idx {
-				return "the bytes before the first backslash are not carried over (fieldname[:i])"
+				return "the bytes before the first backslash are not carried over (fieldname[:i])", true
 			}
 			// guard: the call is control-dependent on fieldname[i] == '\\'
 			guard := false
@@ -767,12 +858,12 @@ func (x *Ctx) unescapeKeyShape(fn *ssa.Function) string {
 				guard = indexByteGuard(b, idx, fieldname)
 			}
 			if !guard {
-				return "the unescape step is not guarded by fieldname[i] == '\\\\' for the same i (or i = bytes.IndexByte(fieldname, '\\\\') with i >= 0)"
+				return "the unescape step is not guarded by fieldname[i] == '\\\\' for the same i (or i = bytes.IndexByte(fieldname, '\\\\') with i >= 0)", true
 			}
-			return ""
+			return "", true
 		}
 	}
-	return "no unescape step for keys that contain a backslash"
+	return "", false
 }
 
 // nullGuard: R03c.
@@ -889,6 +980,7 @@ func (x *Ctx) nullGuard(r *core.Result, rs *core.RuleStat, name string) {
 
 // isContainerField: v is a load of a map- or slice-typed field of a ValueReader.
 func (x *Ctx) isContainerField(v ssa.Value) bool {
+	v = cellValue(v)
 	ld, ok := v.(*ssa.UnOp)
 	if !ok || ld.Op != token.MUL {
 		return false
@@ -1279,10 +1371,14 @@ func indexByteGuard(b *ssa.BasicBlock, idx ssa.Value, fieldname ssa.Value) bool 
 		if found && (dom.Succs[0] == d || dom.Succs[0].Dominates(d)) && len(dom.Succs[0].Preds) == 1 {
 			return true
 		}
+		// `if i < 0 { return … }`: the step lies on the other edge
+		foundNeg := (be.Op == token.LSS && kk.Int64() == 0) || (be.Op == token.LEQ && kk.Int64() == -1) || (be.Op == token.EQL && kk.Int64() == -1)
+		if foundNeg && (dom.Succs[1] == d || dom.Succs[1].Dominates(d)) && len(dom.Succs[1].Preds) == 1 {
+			return true
+		}
 	}
 	return false
 }
-
 
 // helperClosure: fn and the unexported library functions it (transitively) calls statically — the unit a shape rule
 // about fn has to look at so that moving part of fn into a private helper does not hide the construct.
@@ -1313,7 +1409,6 @@ func (x *Ctx) helperClosure(fn *ssa.Function) []*ssa.Function {
 	}
 	return out
 }
-
 
 // correlatedNonNil: v is the error result of a call to a library helper and block b is reached only when a boolean
 // result of the same call was true, where the helper returns that boolean as true only together with a known
